@@ -96,8 +96,15 @@ def run(ctx):
     # F1 stratum: refinements that fail (Flaky on a seeded plan, Dependent -> VarRange([])) make create_node backtrack near the
     # depth frontier; an operation may then fail legitimately, so only the depth of what IS produced is judged there
     failing = H.draw(5) == 4
+    recover_at = None
     if failing:
-        feat.update(flaky=3, dependent=2, multi_dependent=1)
+        if H.draw(2):
+            feat.update(flaky=3, dependent=2, multi_dependent=1)
+        else:
+            # only harness-controlled failures (Flaky): from a seeded step on the faults STOP, and from then on a feasible limit
+            # must be served without error again (whatever the failed attempts did must not outlive them)
+            feat.update(flaky=4, dependent=0)
+            recover_at = "pending"
         ctx.stat("failing_refinement_runs")
     w = SynthWorld(ctx, feat=feat, reps=("tree", "tree", "ge", "sge", "dsge"), deciders=("grow", "full", "pigrow"))
     try:
@@ -138,7 +145,13 @@ def run(ctx):
             return
         n_ops = 1 + H.draw(10 if ctx.tier == "quick" else 30)
         ops = []
+        if recover_at == "pending":
+            recover_at = H.draw(n_ops)
         for step in range(n_ops):
+            if recover_at is not None and step == recover_at:
+                w.flaky_den = 0
+                failing = False
+                ctx.stat("faults_stopped")
             if H.draw(6) == 0 and w.rep_kind in ("tree", "ge", "sge"):
                 # F13 (history), unjudged: ANOTHER decider with a different limit works on the same grammar object in between
                 # (a depth sweep, an initialiser, a second search); nothing of it may show at this run's limit
